@@ -4,7 +4,8 @@
    group of exponent 2 (symbols of any length under XOR), the last repair symbol is null.  The check
    evaluates these hypotheses on the matrix of every session whose claim is true (read from the C). *)
 From Coq Require Import Arith List Bool.
-From OFV Require Import LastNull.
+From Coq Require Import ZArith.
+From OFV Require Import LastNull Sparse Prng Pchk PchkConcrete.
 Theorem last_repair_is_null :
   forall (Sy : Type) (sxor : Sy -> Sy -> Sy) (s0 : Sy),
   (forall a b c, sxor a (sxor b c) = sxor (sxor a b) c) -> (forall a b, sxor a b = sxor b a) ->
@@ -17,4 +18,20 @@ Theorem last_repair_is_null :
   (forall c, c < r - 1 -> colcount H c = 2) -> colcount H (r - 1) = 1 ->
   cw (r - 1) = s0.
 Proof. exact last_repair_is_null_proof. Qed.
+(* ... and the construction model (Pchk.v) satisfies those hypotheses whenever it makes the claim: for every
+   accepted seed and every outcome of the pseudo-random choices, if no extra entry was added and N1 is even
+   (exactly when OF_CRTL_LDPC_STAIRCASE_IS_LAST_SYMBOL_NULL answers true), the last repair symbol of EVERY
+   codeword of the constructed matrix is null *)
+Theorem ldpc_last_null_claim_is_true_of_the_construction :
+  forall fuel k r n1 seed g0 m extra g,
+  1 <= k -> 1 <= r -> (Z.of_nat k <= 2^24)%Z -> (Z.of_nat r <= 2^24)%Z ->
+  (1 <= seed <= PM_P - 1)%Z -> pchk fuel k r n1 seed g0 = Some (m, extra, g) ->
+  last_symbol_null_claim n1 extra = true ->
+  forall (Sy : Type) (sxor : Sy -> Sy -> Sy) (s0 : Sy),
+  (forall a b c, sxor a (sxor b c) = sxor (sxor a b) c) -> (forall a b, sxor a b = sxor b a) ->
+  (forall a, sxor s0 a = a) -> (forall a, sxor a a = s0) ->
+  forall cw : nat -> Sy, (forall row, In row (rws m) -> rowsum Sy sxor s0 cw row = s0) -> cw (r - 1) = s0.
+Proof. exact pchk_last_repair_null_s. Qed.
+
 Print Assumptions last_repair_is_null.
+Print Assumptions ldpc_last_null_claim_is_true_of_the_construction.
